@@ -1,0 +1,9 @@
+//go:build verif
+
+package synchronization
+
+// VerifC37EnsureValid exposes CreationSpecification.ensureValid (the validation
+// performed when a session is created) to the verification harness.
+func VerifC37EnsureValid(s *CreationSpecification) error {
+	return s.ensureValid()
+}
